@@ -1,20 +1,48 @@
-(* statement pins and axiom audit for C11 (compiled on every check) *)
+(* statement pins and axiom audit for C11 (compiled on every check; regenerate BY HAND with driver/mkpins.py) *)
 From ChiaV.Base Require Import Bytes.
-From ChiaV.Clvm Require Import Ints Sexp.
+From ChiaV.Clvm Require Import Ints Sexp IntsProofs LadderProofs.
 From ChiaV.Gen Require Import Ladders.
-From ChiaV.Props Require Import C11.
 Open Scope N_scope.
-
-Check C11_coin_id_amount_canonical : forall v, v < 2 ^ 64 -> coin_amount_bytes v = canon_n v.
+From ChiaV.Props Require Import C11.
+Check C11_coin_id_amount_canonical :
+  forall v, v < 2 ^ 64 -> coin_amount_bytes v = canon_n v.
 Print Assumptions C11_coin_id_amount_canonical.
-Check C11_u64_to_bytes_canonical : forall v, v < 2 ^ 64 -> u64_to_bytes v = canon_n v.
+Check C11_u64_to_bytes_canonical :
+  forall v, v < 2 ^ 64 -> u64_to_bytes v = canon_n v.
 Print Assumptions C11_u64_to_bytes_canonical.
-Check C11_generator_length_ladder : forall v, v < 2 ^ 64 ->
+Check C11_generator_length_ladder :
+  forall v, v < 2 ^ 64 ->
   Some (clvm_bytes_len v) = option_map nlen (ser (Atom (canon_n v))).
 Print Assumptions C11_generator_length_ladder.
-Check C11_canonical_form_unique : forall bs,
+Check C11_canonical_form_unique :
+  forall bs,
   is_minimal bs = true -> match bs with [] => True | b :: _ => b2n b < 128 end ->
   canon_n (be2n bs) = bs.
 Print Assumptions C11_canonical_form_unique.
-Check C11_canonical_decodes : forall n, be2n (canon_n n) = n.
+Check C11_canonical_is_minimal :
+  forall n, is_minimal (canon_n n) = true.
+Print Assumptions C11_canonical_is_minimal.
+Check C11_canonical_decodes :
+  forall n, be2n (canon_n n) = n.
 Print Assumptions C11_canonical_decodes.
+Check C11_sanitize_accepts_exactly_canonical :
+  forall bs k n,
+  sanitize_uint bs k = SOk n <-> bs = canon_n n /\ n < 256 ^ N.of_nat k.
+Print Assumptions C11_sanitize_accepts_exactly_canonical.
+Check C11_sanitize_rejects_redundant_zero :
+  forall bs k,
+  sanitize_uint bs k = SErr <->
+  match bs with
+  | [b] => b2n b = 0
+  | b0 :: b1 :: _ => b2n b0 = 0 /\ b2n b1 < 128
+  | [] => False
+  end.
+Print Assumptions C11_sanitize_rejects_redundant_zero.
+Check C11_sanitize_negative :
+  forall bs k,
+  sanitize_uint bs k = SNegOverflow <-> match bs with b :: _ => 128 <= b2n b | [] => False end.
+Print Assumptions C11_sanitize_negative.
+Check C11_sanitize_positive_overflow :
+  forall bs k,
+  sanitize_uint bs k = SPosOverflow <-> exists n, bs = canon_n n /\ 256 ^ N.of_nat k <= n.
+Print Assumptions C11_sanitize_positive_overflow.
